@@ -159,43 +159,49 @@ func c02(ctx *run.Ctx) {
 				lengths = append(lengths, n)
 			}
 			lengths = append(lengths, 3*w+7, 97)
-			ctx.Case(fmt.Sprintf("%s/cfg%d/counts", ind.Name, ci), func(cc *run.Case) {
-				bars := gen.Bars(cc.R, gen.Walk, 3*w+100)
-				full := indInputs(ind, bars, nil)
-				for _, n := range lengths {
-					cc.Desc(map[string]any{"indicator": ind.Name, "cfg": cfg, "n": n, "w": w})
-					inputs := make([][]float64, len(full))
-					for k := range full {
-						inputs[k] = full[k][:n]
-					}
-					inst := ind.New(cfg)
-					out := runInd(inst, inputs)
-					cc.Count("runs", 1)
-					cc.Count("cmp:"+ind.Name, 1)
-					want := max(0, n-inst.Idle)
-					for j := range out {
-						if len(out[j]) == want {
-							continue
-						}
-						key := ""
-						if ind.Name == "momentum.IchimokuCloud" && j == 4 && len(out[j]) == max(0, n-inst.Idle+cfg.I[3]) {
-							key = "momentum.IchimokuCloud:lagging-span-longer"
-						}
-						cc.Viol(key, fmt.Sprintf("%s %v: for n=%d inputs output %d (%s) has %d values, warm-up contract says max(0, n-w) = %d (w=%d, declared=%v)",
-							ind.Name, cfg, n, j, ind.Out[j], len(out[j]), want, inst.Idle, inst.Declared),
-							map[string]any{"indicator": ind.Name, "cfg": cfg, "n": n, "w": inst.Idle, "output": j, "count": len(out[j]), "want": want})
-						if key == "" {
-							return
-						}
-					}
-					if n > inst.Idle {
-						cc.Distinct(fmt.Sprintf("%s/%v/%d", ind.Name, cfg, n))
-					}
+			for _, cclass := range []string{gen.Walk, gen.Degen, gen.Ties, gen.Flat} {
+				cclass := cclass
+				if cclass != gen.Walk && ci > ctx.Pick(3, 12) {
+					continue
 				}
-				if cc.WantSample() && ci == 1 {
-					cc.Sample(map[string]any{"indicator": ind.Name, "cfg": cfg, "w": w, "lengths_run": fmt.Sprintf("0..%d, %d, 97", 2*w+3, 3*w+7), "expected_counts": "max(0,n-w) on every output"})
-				}
-			})
+				ctx.Case(fmt.Sprintf("%s/cfg%d/counts/%s", ind.Name, ci, cclass), func(cc *run.Case) {
+					bars := gen.Bars(cc.R, cclass, 3*w+100)
+					full := indInputs(ind, bars, nil)
+					for _, n := range lengths {
+						cc.Desc(map[string]any{"indicator": ind.Name, "cfg": cfg, "class": cclass, "n": n, "w": w})
+						inputs := make([][]float64, len(full))
+						for k := range full {
+							inputs[k] = full[k][:n]
+						}
+						inst := ind.New(cfg)
+						out := runInd(inst, inputs)
+						cc.Count("runs", 1)
+						cc.Count("cmp:"+ind.Name, 1)
+						want := max(0, n-inst.Idle)
+						for j := range out {
+							if len(out[j]) == want {
+								continue
+							}
+							key := ""
+							if ind.Name == "momentum.IchimokuCloud" && j == 4 && len(out[j]) == max(0, n-inst.Idle+cfg.I[3]) {
+								key = "momentum.IchimokuCloud:lagging-span-longer"
+							}
+							cc.Viol(key, fmt.Sprintf("%s %v: for n=%d inputs output %d (%s) has %d values, warm-up contract says max(0, n-w) = %d (w=%d, declared=%v)",
+								ind.Name, cfg, n, j, ind.Out[j], len(out[j]), want, inst.Idle, inst.Declared),
+								map[string]any{"indicator": ind.Name, "cfg": cfg, "n": n, "w": inst.Idle, "output": j, "count": len(out[j]), "want": want})
+							if key == "" {
+								return
+							}
+						}
+						if n > inst.Idle {
+							cc.Distinct(fmt.Sprintf("%s/%v/%s/%d", ind.Name, cfg, cclass, n))
+						}
+					}
+					if cc.WantSample() && ci == 1 {
+						cc.Sample(map[string]any{"indicator": ind.Name, "cfg": cfg, "class": cclass, "w": w, "lengths_run": fmt.Sprintf("0..%d, %d, 97", 2*w+3, 3*w+7), "expected_counts": "max(0,n-w) on every output"})
+					}
+				})
+			}
 			if ci <= ctx.Pick(2, 8) {
 				for _, class := range []string{gen.Walk, gen.Dyadic} {
 					class := class
